@@ -1,5 +1,5 @@
 import IndicatifModel.Generated.PadStep
-import IndicatifModel.Model.Basic
+import IndicatifModel.Model.DrawTarget
 /-! The loop body of `LineType::padded_width` as translated from the source is the model's `Text.padStep`. -/
 namespace IndicatifModel.GenBridge
 
@@ -19,5 +19,10 @@ theorem padFoldSrc_eq (W : Nat) (gs : Text) (acc : Nat × Nat) :
   congr 1
   funext a g
   exact padStepSrc_eq W a g
+
+/-- the model's `wrappedHeight` is the source's rounding and bound applied to the padded width -/
+theorem wrappedHeightSrc_eq (W : Nat) (l : Line) : wrappedHeight W l = Generated.wrappedHeightSrc (l.padded W) W := by
+  unfold wrappedHeight Generated.wrappedHeightSrc
+  exact Nat.max_comm _ _
 
 end IndicatifModel.GenBridge
